@@ -63,8 +63,14 @@ impl Rnd {
     fn below(&mut self, n: usize) -> usize {
         (self.next() % n.max(1) as u64) as usize
     }
+    /// Flips one bit; a quarter of the time in the first byte, a quarter in the last (a digest that
+    /// drops the edge of a field or of a slice of it).
     fn flip(&mut self, b: &mut [u8]) {
-        let k = self.below(b.len());
+        let k = match self.below(4) {
+            0 => 0,
+            1 => b.len() - 1,
+            _ => self.below(b.len()),
+        };
         b[k] ^= 1 << self.below(8);
     }
 }
